@@ -212,4 +212,16 @@ META["C19"] = {
     "technique": "TLA+ agent/verifier specification (TLC) + trace validation of the real task factories under single alterations",
 }
 
+META["C13"] = {
+    "text": "Balloon.tla contains the wire mapping (the public form drops the history proof's own index/version and the hyper value; they are "
+            "rebuilt from ActualVersion/QueryVersion) and WireFaithful (same verdict before and after, for every digest and snapshot pair, also for "
+            "queries beyond the current version) is model-checked; every proof in the balloon and cluster traces goes through the real JSON round "
+            "trip with fields and verdict compared under TLC. What TLC cannot hold (64-bit magnitudes in position keys, byte-level msgpack/JSON "
+            "fidelity of snapshots, batches and gossip messages) is checked by an identity oracle on the real encoders, logged and accepted/rejected "
+            "by a trivial trace spec.",
+    "note": "The magnitude / byte-level clause is an identity oracle, not model checking (TLC integers are 32-bit). Replicated commands are covered "
+            "indirectly: they travel through their real encoding and the raft log store in every cluster run, and replica stores are compared.",
+    "technique": "TLA+ wire-mapping invariant (TLC) + TLC-validated round trips of every real proof + identity oracle for magnitudes",
+}
+
 NOT_APPLICABLE = {}
